@@ -26,7 +26,10 @@ Record st := mkst { sx1 : T; sx2 : T; sf1 : T; sf2 : T; sres : T }.
 <<
 	double x3 = (x1 + x2) / 2.0;
 	double f3 = func(x3);
-	double x4 = x3 + (x3 - x1) * Sign(f1 - f2) * f3 / sqrt(f3 * f3 - f1 * f2);
+	double scale = std::max(fabs(f3), std::max(fabs(f1), fabs(f2)));   // only the ratios of f1, f2, f3 enter
+	double g1 = f1 / scale;  double g2 = f2 / scale;  double g3 = f3 / scale;
+	double x4 = x3 + (x3 - x1) * Sign(g1 - g2) * g3 / sqrt(g3 * g3 - g1 * g2);
+	if(std::isnan(x4)) x4 = x3;                                          // infinite function values: bisect
 	x4 = std::max(std::min(x1, x2), std::min(std::max(x1, x2), x4));   // rounding may push x4 past an end
 	result	  = x4;
 	double f4 = func(x4);
@@ -43,7 +46,10 @@ Definition step (f : T -> T) (acc : T) (s : st) : (res (T * how) + st) * list T 
   let x1 := sx1 s in let x2 := sx2 s in let f1 := sf1 s in let f2 := sf2 s in
   let x3 := (x1 + x2) / nofZ Ops 2 in
   let f3 := f x3 in
-  let x4r := x3 + (x3 - x1) * nofZ Ops (sign1 Ops (f1 - f2)) * f3 / nsqrt Ops (f3 * f3 - f1 * f2) in
+  let sc := nmax Ops (nabs Ops f3) (nmax Ops (nabs Ops f1) (nabs Ops f2)) in
+  let g1 := f1 / sc in let g2 := f2 / sc in let g3 := f3 / sc in
+  let x4s := x3 + (x3 - x1) * nofZ Ops (sign1 Ops (g1 - g2)) * g3 / nsqrt Ops (g3 * g3 - g1 * g2) in
+  let x4r := if nisnan Ops x4s then x3 else x4s in
   let x4 := nmax Ops (nmin Ops x1 x2) (nmin Ops (nmax Ops x1 x2) x4r) in
   let f4 := f x4 in
   if neqb Ops f4 (n0 Ops) then (inl (Ok (x4, HF4Zero)), [x3; x4])
@@ -80,7 +86,7 @@ Definition max_iterations : nat := Z.to_nat 2200.
 	if(xLeft > xRight) { swap }
 	double fLeft = func(xLeft);  double fRight = func(xRight);
 	if(std::isnan(fLeft) || std::isnan(fRight)) { ...; std::exit(EXIT_FAILURE); }
-	else if(fLeft * fRight >= 0.0)
+	else if(Sign(fLeft) * Sign(fRight) >= 0)
 	{	if(fLeft == 0) return xLeft; else if(fRight == 0) return xRight; else { ...; std::exit(EXIT_FAILURE); } }
 	else { x1 = xLeft; x2 = xRight; f1 = fLeft; f2 = fRight; result = -9.9e99; for(...) ... }
 >> *)
@@ -91,7 +97,7 @@ Definition find_root_h (f : T -> T) (xLeft xRight acc : T) : res (T * how) * lis
   let fl := f xl in
   let fr := f xr in
   if nisnan Ops fl || nisnan Ops fr then (Exit, [xl; xr])
-  else if ngeb Ops (fl * fr) (n0 Ops) then
+  else if (sign1 Ops fl * sign1 Ops fr >=? 0)%Z then
     if neqb Ops fl (nofZ Ops 0) then (Ok (xl, HEndZero), [xl; xr])
     else if neqb Ops fr (nofZ Ops 0) then (Ok (xr, HEndZero), [xl; xr])
     else (Exit, [xl; xr])
